@@ -65,7 +65,9 @@ def consistent (df : DataFormat) : Bool :=
   (match df.format with
    | .delimited =>
      df.itemDelim != df.quote && df.lineDelim.asChar != some df.itemDelim && df.lineDelim.asChar != some df.quote &&
-       (df.lineDelim == .none || df.lineDelim.asChar != some df.escape)
+       (df.lineDelim == .none || df.lineDelim.asChar != some df.escape) &&
+       -- what a delimited format needs in order to be readable at all (C12)
+       df.itemDelim != df.escape && df.itemDelim != '\n' && df.itemDelim != '\r'
    | _ => true)
 
 end Cutplace.Spec
